@@ -67,7 +67,8 @@ PROPS["C01"] = dict(
              args=["--prop", "C01", "--streams", "all_prefixes,random_mutations,alpha24_len3"]),
         dict(name="asan-hsw-fill-7d", src="parse_harness.cpp", cfg="asan-hsw", env=fill_env(0x7d),
              args=["--prop", "C01", "--streams", "all_prefixes,random_mutations,alpha24_len3"]),
-        dict(name="prod-wsm", src="parse_harness.cpp", cfg="prod-wsm", args=["--prop", "C01"], env={}, tiers=("thorough",)),
+        dict(name="prod-wsm", src="parse_harness.cpp", cfg="prod-wsm", args=["--prop", "C01"], env={}),
+        dict(name="prod-dyn-nohsw", src="parse_harness.cpp", cfg="prod-dyn+SONIC_VERIF_DISPATCH_NO_HASWELL", args=["--prop", "C01"], env={}, tiers=("thorough",)),
         dict(name="asanub-hsw", src="parse_harness.cpp", cfg="asanub-hsw", args=["--prop", "C01"], env=ASAN_ENV, tiers=("thorough",)),
     ],
     require=["accepted", "reject:structural", "reject:infinity", "reject:string-fault", "bytes_le2", "all_prefixes",
@@ -124,6 +125,8 @@ PROPS["C03"] = dict(
     runs=[
         dict(name="asan-hsw", src="parse_harness.cpp", cfg="asan-hsw", args=["--prop", "C03"], env=ASAN_ENV),
         dict(name="prod-hsw", src="parse_harness.cpp", cfg="prod-hsw", args=["--prop", "C03"], env={}),
+        dict(name="prod-wsm", src="parse_harness.cpp", cfg="prod-wsm", args=["--prop", "C03"], env={}),
+        dict(name="prod-dyn-nohsw", src="parse_harness.cpp", cfg="prod-dyn+SONIC_VERIF_DISPATCH_NO_HASWELL", args=["--prop", "C03"], env={}),
     ],
     require=["accepted", "valid_doc_x_pad", "sizes_and_last_child", "long_whitespace", "deep", "every_u16_escape",
              "c03:parses-into-a-long-lived-reused-document"],
@@ -339,6 +342,7 @@ PROPS["C12"] = dict(
         dict(name="asan-dyn", src="mutation_harness.cpp", cfg="asan-dyn", env=ASAN_NOLEAK_ENV, args=["--prop", "C12"]),
         dict(name="asanub-hsw", src="mutation_harness.cpp", cfg="asanub-hsw", env=ASAN_NOLEAK_ENV, args=["--prop", "C12"], tiers=("thorough",)),
         dict(name="prod-hsw", src="mutation_harness.cpp", cfg="prod-hsw", env={}, args=["--prop", "C12"]),
+        dict(name="prod-wsm", src="mutation_harness.cpp", cfg="prod-wsm", env={}, args=["--prop", "C12"]),
     ],
     require=["operations-checked", "op:CreateMap", "op:DestroyMap", "op:RemoveMember(tail)-while-map-exists", "op:erase-full-or-empty-range",
              "op:growth-from-capacity-0", "op:move-assign-from-own-subnode", "op:Swap-with-own-subnode", "op:CopyFrom",
@@ -384,9 +388,10 @@ PROPS["C18"] = dict(
         dict(name="asan-hsw", src="mutation_harness.cpp", cfg="asan-hsw", env=ASAN_NOLEAK_ENV, args=["--prop", "C18"]),
         dict(name="prod-dyn", src="mutation_harness.cpp", cfg="prod-dyn", env={}, args=["--prop", "C18"]),
         dict(name="prod-hsw", src="mutation_harness.cpp", cfg="prod-hsw", env={}, args=["--prop", "C18"]),
+        dict(name="prod-wsm", src="mutation_harness.cpp", cfg="prod-wsm", env={}, args=["--prop", "C18"]),
     ],
     require=["pairs:model-equal", "pairs:model-different", "triples(transitivity)", "variant:member-permuted", "variant:number-kind-changed",
-             "pairs:objects-with-long-shared-prefix-keys(map on one side)",
+             "pairs:objects-with-long-shared-prefix-keys(map on one side)", "scalar-comparisons(node == bool/int/uint/double/string)",
              "pairs:across-allocator-types", "history:null-from-moved-from-node", "history:const-strings-sharing-an-address",
              "history:lookup-map-present", "deep-copy/parse-of-dump-checks"],
     assumptions=["model equality jm::equal_unordered (objects as key->value maps, numbers by kind and bits)"],
@@ -481,7 +486,7 @@ PROPS["C17"] = dict(
         dict(name="tsan-hsw-locked", src="thread_harness.cpp", cfg="tsan-hsw+SONIC_LOCKED_ALLOCATOR", env=TSAN_ENV, shards=4, shards_quick=4),
         dict(name="prod-hsw-locked", src="thread_harness.cpp", cfg="prod-hsw+SONIC_LOCKED_ALLOCATOR", env={}, shards=4, shards_quick=4, args=["--scale", "4"]),
     ],
-    require=["thread-team-runs", "W1:own-documents(parse,mutate,serialize,on-demand,UpdateLazy,ParseSchema)", "W2:shared-read-only-document",
+    require=["thread-team-runs", "W0:cold-start-teams(first library use in a fresh process is concurrent)", "W1:own-documents(parse,mutate,serialize,on-demand,UpdateLazy,ParseSchema)", "W2:shared-read-only-document",
              "W2:operator[]-on-missing-key", "W2:shared-document-with-lookup-map", "W3:shared-pool-by-reference(locked)",
              "W3:documents-on-the-shared-pool", "W3b:shared-pool-through-handle-copies(locked)", "distinct-interleaving-prefixes(first 48 tickets)"],
     assumptions=["ThreadSanitizer judges the accesses that were executed (happens-before); the runtime-dispatch build cannot start under TSan (ifunc resolver), "
